@@ -129,9 +129,9 @@ def run(ctx: Ctx) -> int:
             "exhaustive": False,
             "k_obligations": kcounts,
             "k_samples": [{"harness": r.name, "verdict": r.verdict, "seconds": round(r.seconds, 1), "meta": r.meta} for r in kres[:6]],
-            "functions_encoded": source_sha([GroupIndices._get_asserted_int_values, GroupIndices._get_asserted_groupsizes,
-                                             GroupIndices._get_asserted_groupindices, GroupIndices._store_results,
-                                             DataflowTransactionContext._get_asserted, DataflowTransactionContext.run_analysis]),
+            "functions_encoded": source_sha([lambda: GroupIndices._get_asserted_int_values, lambda: GroupIndices._get_asserted_groupsizes,
+                                             lambda: GroupIndices._get_asserted_groupindices, lambda: GroupIndices._store_results,
+                                             lambda: DataflowTransactionContext._get_asserted, lambda: DataflowTransactionContext.run_analysis]),
             "bounds": {"unroll": 2, "call_depth": 3, "fuel": 400, "group_size": "1..16 (symbolic)", "constants": "K: all uint64; S: alphabet 0..17",
                        "crosshair_timeout_s": 40 if ctx.quick else 120},
             "tealer_tree": tree_sha(),
